@@ -220,7 +220,7 @@ class Checker:
         o.status = 'proved'
         o.detail = detail
         o.queries = 1
-        o.vacuity = 'structural check on the enumerated leaves'
+        o.vacuity = 'leaf reached by concrete path enumeration of the real code (decision vector replayed)'
         self.obls.append(o)
         return o
 
@@ -750,6 +750,10 @@ def finalize(ck, pid):
                     rep, wit = algreplay.replay_group(rp['op'], rp['modes'], rp['case'], sd)
                     if rep:
                         break
+            elif rp and rp['kind'] == 'pow':
+                rep, wit = algreplay.replay_pow([rp['k']])
+            elif rp and rp['kind'] == 'finalexp':
+                rep, wit = algreplay.replay_finalexp()
             elif rp and rp['kind'] == 'sqrt':
                 rep, wit = algreplay.replay_sqrt(rp['family'])
             elif rp and rp['kind'] == 'wrap':
@@ -1001,6 +1005,8 @@ def run_parts(pid, parts, seed=0, thorough=False):
         elif part == 'consts':
             for pfx in ('g1', 'g2'):
                 check_zero_one(ck, leaves(pfx, pfx + '_zero_one').get(pfx + '_zero_one', []), pfx)
+        elif part == 'exponents':
+            check_exponents(ck)
         elif part == 'sqrt':
             by = {}
             for t in ('fq2_sqrt', 'fq2_sqrt_of_square', 'fq2_sqrt_of_real', 'fq2_sqrt_of_imag'):
@@ -1264,3 +1270,75 @@ def check_sqrt(ck, by):
                     ck.fail(nm, stmt, 'feasible leaf (%s) returns %s' % (why, 'Some' if some else 'None'), [src], replay=dict(kind='sqrt', family=task))
         if not seen_feasible:
             ck.fail('A-%s-coverage' % task, 'at least one feasible leaf', 'no feasible leaf found', [src], status='inconclusive')
+
+
+# ------------------------------------------------------------------------------------------ variant E: exponents
+def check_exponents(ck):
+    """overlay variant E: the real Fq12::pow(u128), both final exponentiations and the generic pow (concrete
+    scalars), run on x = Base(0) over the exponent-tracking stand-in; every result is x^e with e folded exactly"""
+    import alg, subprocess, z3
+    src = 'src/pairings.rs'
+    exe, msg = alg.overlay_exe('E')
+    if not exe:
+        return ck.fail('A-E-overlay', 'overlay variant E builds', msg, [src], status='inconclusive')
+    p = subprocess.run([exe], capture_output=True, text=True, timeout=600)
+    try:
+        d = json.loads(p.stdout.strip().splitlines()[-1])
+    except Exception:
+        return ck.fail('A-E-run', 'variant E driver runs', 'no output: ' + p.stderr[-300:], [src], status='inconclusive')
+    N = Q ** 12 - 1
+    nodes = {n[0]: n for n in d['dag']}
+    ex = {}
+    for i in sorted(nodes):
+        n = nodes[i]
+        k = n[1]
+        if k == 'base':
+            ex[i] = 1
+        elif k == 'one':
+            ex[i] = 0
+        elif k == 'mul':
+            ex[i] = ex[n[2]] + ex[n[3]]
+        elif k == 'sq':
+            ex[i] = 2 * ex[n[2]]
+        elif k == 'inv':
+            ex[i] = -ex[n[2]]
+        elif k == 'frob':
+            ex[i] = ex[n[3]] * Q ** n[2]
+    outs = dict((a, b) for a, b in d['outs'])
+    c = {k: int(v) for k, v in d['consts'].items()}
+    full = (Q ** 12 - 1) // RORD
+    assert (Q ** 12 - 1) % RORD == 0
+    first = (Q ** 6 - 1) * (Q ** 2 + 1)
+    specs = [('pow_A2', c['A2'], False), ('pow_A3', c['A3'], False), ('pow_S', c['S'], False), ('pow_NINE', c['NINE'], False), ('pow_0', 0, False), ('pow_1', 1, False), ('pow_2', 2, False),
+             ('pow_6', 6, False), ('pow_1000003', 1000003, False), ('first_chunk', first, True), ('final_exponentiation', full, True), ('final_exp', full, True),
+             ('gtpow_0', 0, False), ('gtpow_1', 1, False), ('gtpow_2', 2, False), ('gtpow_5', 5, False), ('gtpow_18446744073709551616', 1 << 64, False),
+             ('gtpow_340282366920938463463374607431768211461', (1 << 128) + 5, False)]
+    for name, want, modN in specs:
+        nm = 'A-E-' + name
+        if name not in outs:
+            ck.fail(nm, 'chain present', 'missing output', [src], status='inconclusive')
+            continue
+        got = ex[outs[name]]
+        s = z3.Solver()
+        t = z3.Int('t')
+        diff = (got - want)
+        # the two exponents agree on every element x = g^t of the cyclic group F_q12^* iff they agree mod q^12 - 1
+        s.add((z3.IntVal(diff) * t) % (N if modN else 0 or N) != 0) if modN else s.add(z3.IntVal(got) != z3.IntVal(want))
+        r = s.check()
+        stmt = {'first_chunk': 'easy part of both final exponentiations: x -> x^((q^6-1)(q^2+1))',
+                'final_exponentiation': 'final_exponentiation: x -> x^((q^12-1)/r) for every non-zero x (exponent folded through the real chain, SM9_A2/A3/NINE)',
+                'final_exp': 'final_exp (fast variant): x -> x^((q^12-1)/r) for every non-zero x (real chain over SM9_S)'}.get(name, 'the real exponentiation loop computes x^%s' % (name.split('_', 1)[1]))
+        if r == z3.unsat:
+            ck.ok(nm, stmt, 'exponent of the real chain %s the specification (z3: unsat)' % ('is congruent mod q^12-1 to' if modN else 'equals'), [src])
+        else:
+            ck.fail(nm, stmt, 'exponent mismatch: chain computes x^e with e - spec = %d (mod q^12-1: %d)' % (diff if abs(diff) < 10 ** 30 else 0, diff % N), [src], replay=(dict(kind='pow', k=want) if name.startswith('gtpow') else dict(kind='finalexp', name=name)))
+    # the last chunks agree with each other on the cyclotomic subgroup and the loop constants are consistent
+    tS = c['S']
+    okq = 36 * tS ** 4 + 36 * tS ** 3 + 24 * tS ** 2 + 6 * tS + 1 == Q
+    okn = c['LOOP_N'] == 6 * tS + 2
+    n = 1
+    for dgt in d['loop_count']:
+        n = 2 * n + {0: 0, 1: 1, 2: -1}[dgt]
+    okl = n == c['LOOP_N']
+    (ck.ok if okq and okn and okl else ck.fail)('A-E-constants', 'loop constants: q = 36t^4+36t^3+24t^2+6t+1 with t = SM9_S; SM9_LOOP_N = 6t+2; the signed-digit table SM9_LOOP_COUNT spells 6t+2',
+                                                'q(t): %s, LOOP_N = 6t+2: %s, digit table: %s' % (okq, okn, okl), [src])
